@@ -23,7 +23,7 @@ from functools import reduce
 from typing import Any, Optional, List, Callable
 
 from . import Monomial, Polynomial, MATRIX
-from .semiring import ZERO_MWP, UNIT_MWP
+from .semiring import ZERO_MWP, UNIT_MWP, INFTY_MWP
 
 ZERO = Polynomial(ZERO_MWP)
 
@@ -170,12 +170,28 @@ def matrix_prod(matrix1: MATRIX, matrix2: MATRIX) -> MATRIX:
         A new matrix that represents the product of the two inputs.
     """
 
+    # infinities of each row of the left / each column of the right factor
+    row_inf = [reduce(lambda total, poly: total + __infty(poly), row, ZERO)
+               for row in matrix1]
+    col_inf = [reduce(lambda total, row: total + __infty(row[j]), matrix2, ZERO)
+               for j in range(len(matrix2))]
     return [[
         reduce(lambda total, k:
                total + (matrix1[i][k] * matrix2[k][j]),
-               range(len(matrix1)), ZERO)
+               range(len(matrix1)), ZERO) + row_inf[i] + col_inf[j]
         for j in range(len(matrix2))]
         for i in range(len(matrix1))]
+
+
+def __infty(polynomial: Polynomial) -> Polynomial:
+    """The infinity-monomials of a polynomial, as a polynomial (0 if none).
+
+    A polynomial product has no term at a choice where one factor has none,
+    but 0 x infinity = infinity in the semiring: the matrix product adds the
+    infinities of row i of the left factor and of column j of the right factor
+    back to cell (i, j), so that a failure is never erased."""
+    return Polynomial(*[mono.copy() for mono in polynomial.list
+                        if mono.scalar == INFTY_MWP])
 
 
 def resize(matrix: MATRIX, new_size: int) -> MATRIX:
